@@ -152,6 +152,44 @@ fn explore_all(p: &Program, seed: u64, schedules: usize, pct: bool) -> Result<us
 
 fn simpler_programs(p: &Program) -> Vec<Program> {
     let mut out = Vec::new();
+    if let Some(c) = &p.c14 {
+        let with = |f: &dyn Fn(&mut program::C14Spec)| {
+            let mut q = p.clone();
+            f(q.c14.as_mut().unwrap());
+            q
+        };
+        for k in 0..c.writer.len().saturating_sub(1) {
+            out.push(with(&|c| {
+                c.writer.remove(k);
+            }));
+        }
+        for k in 0..c.reader.len() {
+            out.push(with(&|c| {
+                c.reader.remove(k);
+            }));
+        }
+        for k in 0..c.writer.len() {
+            if let program::LOp::GuardSet(v) | program::LOp::SetIfNotEq(v) = c.writer[k] {
+                out.push(with(&|c| c.writer[k] = program::LOp::Set(v)));
+            }
+        }
+        if c.with_initial.is_some() {
+            out.push(with(&|c| c.with_initial = None));
+        }
+        if c.reset {
+            out.push(with(&|c| c.reset = false));
+        }
+        if c.batched {
+            out.push(with(&|c| c.batched = false));
+        }
+        if c.same_waker {
+            out.push(with(&|c| c.same_waker = false));
+        }
+        if c.warmup_polls > 0 {
+            out.push(with(&|c| c.warmup_polls -= 1));
+        }
+        return out;
+    }
     for t in 0..p.threads.len() {
         if p.threads.len() > 1 && !(p.unique && t == 0) {
             let mut q = p.clone();
@@ -328,6 +366,7 @@ fn family(prop: &str) -> &'static str {
     match prop {
         "C02" | "C02T" => "C02T",
         "C03" | "C03T" => "C03T",
+        "C14" | "C14T" => "C14T",
         _ => "C04",
     }
 }
@@ -405,7 +444,7 @@ fn check(a: &Args) -> i32 {
     if let Some((idx, p, f)) = found.into_inner().unwrap() {
         println!("violation in program {} (seed {}): class={} scheduler={} — {}", idx, a.seed, f.class, f.scheduler, f.message.lines().next().unwrap_or(""));
         let (mp, mf, evals) = minimise(&p, &f, a.seed ^ 0x77);
-        println!("minimised to {} thread(s) / {} op(s), {} context switches, in {} batches: {}", mp.threads.len(), mp.threads.iter().map(|t| t.ops.len()).sum::<usize>(), mf.context_switches, evals, mf.message.lines().next().unwrap_or(""));
+        println!("minimised to {} thread(s) / {} op(s), {} context switches, in {} batches: {}", if mp.c14.is_some() { 3 } else { mp.threads.len() }, mp.threads.iter().map(|t| t.ops.len()).sum::<usize>() + mp.c14.as_ref().map_or(0, |c| c.writer.len() + c.reader.len()), mf.context_switches, evals, mf.message.lines().next().unwrap_or(""));
         let dir = format!("{}/replays", a.out);
         let _ = std::fs::create_dir_all(&dir);
         let path = format!("{}/{}-thread-{}-{}.json", dir, prop, a.seed, idx);
@@ -509,7 +548,7 @@ fn replay(a: &Args) -> i32 {
 /// panics if the program behaves differently.
 fn selftest(a: &Args) -> i32 {
     let mut bad = 0;
-    for fam in ["C04", "C02T", "C03T"] {
+    for fam in ["C04", "C02T", "C03T", "C14T"] {
         for i in 0..a.programs.unwrap_or(40) {
             let p = gen_program(fam, a.seed, i);
             let p2 = p.clone();
@@ -532,7 +571,7 @@ fn selftest(a: &Args) -> i32 {
             })
             .collect()
     };
-    for fam in ["C04", "C02T", "C03T"] {
+    for fam in ["C04", "C02T", "C03T", "C14T"] {
         if run(fam) != run(fam) {
             println!("selftest: family {fam}: two identical batches differ");
             bad += 1;
